@@ -154,18 +154,33 @@ def real_of(M, what):
 def sysinfo(tag):
     if tag in _SYS:
         return _SYS[tag]
-    c = A.make_system(tag)
+    base, _, hist = tag.partition("@")
+    c = A.make_system(base)
     B = R.basis_mats(c)
-    CB = R.basis_mats(c.comp_basis())
+    hist_defect = None
+    if hist == "col":
+        # history variant: the FIRST computational-basis request on this system is the column-major one (public API only)
+        from quara.objects.gate import get_i
+        cm = R.basis_mats(c.comp_basis(mode="column_major"))
+        get_i(c).convert_to_comp_basis(mode="column_major")
+        units = R.matrix_units(c.dim)
+        dd = c.dim
+        if not all(np.array_equal(cm[j * dd + i], units[i * dd + j]) for i in range(dd) for j in range(dd)):
+            hist_defect = "comp_basis(mode='column_major') is not the column-major ordering of the matrix units"
+        elif not all(np.array_equal(x, y) for x, y in zip(R.basis_mats(c.comp_basis()), units)):
+            hist_defect = "comp_basis() after a column-major request is not the row-major ordering of the matrix units"
+        CB = units
+    else:
+        CB = R.basis_mats(c.comp_basis())
     d = c.dim
     Bs, CBs = np.array(B), np.array(CB)
-    info = {"tag": tag, "c": c, "d": d, "n": d * d - 1, "B": B, "Bs": Bs, "Bs1": Bs[1:], "CB": CB, "CBs": CBs}
+    info = {"tag": tag, "c": c, "d": d, "n": d * d - 1, "B": B, "Bs": Bs, "Bs1": Bs[1:], "CB": CB, "CBs": CBs, "hist_defect": hist_defect}
     # harness sanity (data the reference relies on; not the property)
     if not np.allclose(np.einsum("aij,bij->ab", Bs.conj(), Bs), np.eye(d * d), atol=1e-12):
         raise AssertionError("harness: basis not orthonormal")
     if not all(np.allclose(b, b.conj().T, atol=1e-14) for b in B) or not np.allclose(B[0], np.eye(d) / math.sqrt(d), atol=1e-14):
         raise AssertionError("harness: basis not Hermitian with B_0 = I/sqrt(d)")
-    if not all(np.array_equal(x, y) for x, y in zip(CB, R.matrix_units(d))):
+    if not hist and not all(np.array_equal(x, y) for x, y in zip(CB, R.matrix_units(d))):
         raise AssertionError("harness: comp basis is not the row-major matrix units")
     # tie the vectorised reference to the shared loop reference and to its own inverse
     n = d * d - 1
@@ -390,6 +405,10 @@ def ex_build(p, seed):
     agg = Agg(out)
     info = sysinfo(p["sys"])
     d, n = info["d"], info["n"]
+    if "@" in p["sys"]:
+        out.count("build_after_column_major_request")
+        if info["hist_defect"]:
+            out.fail("composite_system.comp_basis:mode-ignored-after-history", "%s: %s" % (p["sys"], info["hist_defect"]))
     HB, _ = bases(d)
     KB, KP = bases(n)
     items = build_items(info)[p["lo"]:p["hi"]]
@@ -1174,11 +1193,21 @@ def families(tier, seed):
             ch = CHUNKS[fam][tag]
             cases += [{"sys": tag, "lo": lo, "hi": min(n, lo + ch)} for lo in range(0, n, ch)]
         fams.append((fam, cases))
+    # the same construction checks on systems whose first computational-basis request was the column-major one
+    cases = []
+    for tag in ("Q1@col", "Q3@col", "Q2@col"):
+        info = sysinfo(tag)
+        n = len(build_items(info))
+        lo0 = n - 4 * NGEN                                 # the generic representatives (4 strengths each)
+        hi0 = lo0 + 4 * (NGEN_QUICK if tier == "quick" else NGEN)
+        ch = CHUNKS["build"][tag.split("@")[0]]
+        cases += [{"sys": tag, "lo": lo, "hi": min(hi0, lo + ch)} for lo in range(lo0, hi0, ch)]
+    fams.append(("build_after_history", cases))
     return fams
 
 
 def execute(family, params, seed):
-    return {"build": ex_build, "jump": ex_jump, "extract": ex_extract, "verdict": ex_verdict, "expm": ex_expm,
+    return {"build": ex_build, "build_after_history": ex_build, "jump": ex_jump, "extract": ex_extract, "verdict": ex_verdict, "expm": ex_expm,
             "proj": ex_proj, "var": ex_var}[family](params, seed)
 
 
@@ -1191,6 +1220,7 @@ def guards(summary):
             "verdict_is_physical_True", "verdict_is_physical_False", "verdict_constructor_accepts", "verdict_constructor_rejects",
             "expm_gate_physical", "expm_non_unital_gate", "expm_far_from_identity",
             "proj_eq_nonzero_first_row", "proj_ineq_clipped_eigenvalue", "proj_ineq_physical_input",
-            "proj_ineq_degenerate-spectrum", "proj_ineq_simple-spectrum", "var_flag_True", "var_flag_False", "var_physical_round_trip"]
+            "proj_ineq_degenerate-spectrum", "proj_ineq_simple-spectrum", "var_flag_True", "var_flag_False", "var_physical_round_trip",
+            "build_after_column_major_request"]
     need += ["expm_time_%g" % t for t in SCALES] + ["expm_strength_%g" % t for t in SCALES] + ["build_scale_%g" % t for t in SCALES]
     return ["never observed: %s" % k for k in need if info.get(k, 0) < 1]
